@@ -337,6 +337,14 @@ func runC11(c *fw.Ctx) {
 // runFaults injects single faults into accepted pool documents (directly, through PASTE, through
 // INCLUDE) and requires rejection located inside a directive that takes part in the fault.
 func runFaults(c *fw.Ctx, sigPrefix string, keep func(kind string) bool) {
+	runFaultsMode(c, sigPrefix, keep, false)
+}
+
+// runFaultsMode: with crashOnly (C01) nothing but a crash is judged, and every faulty document is
+// also run with each of its top-level declarations moved, one at a time, into a file of its own
+// (a diagnostic computed for one declaration and located in another then points past the end of a
+// small file).
+func runFaultsMode(c *fw.Ctx, sigPrefix string, keep func(kind string) bool, crashOnly bool) {
 	dir := drv.NewDir(fw.Scratch("c11"))
 	defer os.RemoveAll(filepath.Dir(dir.Path))
 	defer dir.Close()
@@ -365,7 +373,14 @@ func runFaults(c *fw.Ctx, sigPrefix string, keep func(kind string) bool) {
 			}
 			seen[baseText] = true
 			baseOK := -1
-			for _, delivery := range []string{"direct", "paste", "include"} {
+			deliveries := []string{"direct", "paste", "include"}
+			if crashOnly {
+				deliveries = []string{"direct", "include"}
+				for k := 1; k < len(fresh()); k++ {
+					deliveries = append(deliveries, fmt.Sprintf("own-file:%d", k))
+				}
+			}
+			for _, delivery := range deliveries {
 				delivery := delivery
 				injectFaults(fresh, func(f fault) { // fresh trees per delivery: deliveries edit the tree in place
 					if !keep(f.kind) {
@@ -411,6 +426,17 @@ func runFaults(c *fw.Ctx, sigPrefix string, keep func(kind string) bool) {
 							mac := doc.N("MACRO", "@flt").WithParen().WithKids(f.injected)
 							nodes = append(nodes, mac)
 							culprits = append(culprits, ps)
+						default: // own-file:k - the k-th top-level declaration alone in a small file
+							var k int
+							fmt.Sscanf(delivery, "own-file:%d", &k)
+							if k >= len(nodes) || nodes[k].Kw == "JSIGHT" {
+								continue
+							}
+							moved := nodes[k]
+							cp := append([]*doc.Node{}, nodes...)
+							cp[k] = doc.N("INCLUDE", "own.jst")
+							nodes = cp
+							files["own.jst"] = doc.Render([]*doc.Node{moved}, doc.DefaultStyle())
 						case "include":
 							if f.injected == nil || f.injected.Kw == "JSIGHT" {
 								continue
@@ -436,7 +462,17 @@ func runFaults(c *fw.Ctx, sigPrefix string, keep func(kind string) bool) {
 							o, _ = dir.Run(p, opt, false)
 						}
 						if o.Crashed() {
-							c.Count("skipped_crash", 1)
+							if crashOnly {
+								c.Violate("panic", sigPrefix+"panic:"+o.Site, fmt.Sprintf("%s, fault %s delivered %s: the library panicked: %s", name, f.kind, delivery, o.Panic), map[string]interface{}{"project": p})
+							} else {
+								c.Count("skipped_crash", 1)
+							}
+							continue
+						}
+						if crashOnly {
+							if strings.HasPrefix(o.Msg, "runtime error:") {
+								c.Violate("runtime-fault-as-diagnostic", sigPrefix+"runtime-error", fmt.Sprintf("%s, fault %s delivered %s: %s", name, f.kind, delivery, o.Short()), map[string]interface{}{"project": p})
+							}
 							continue
 						}
 						bad := ""
